@@ -956,6 +956,10 @@ def maximal_programs():
     L.append(Line(["\t}"], "rbrace", 1, 0))
     L.append(Line(["\twhile (", i1, " < ", n1, ")"], "ctrl", 1, 0, kw="while"))
     L.append(Line(["\t\t", i1, "++;"], "stmt", 2, 0, stmt="incdec"))
+    # an empty braced body as the LAST statement of the function
+    L.append(Line(["\twhile (", i1, " > 99)"], "ctrl", 1, 0, kw="while"))
+    L.append(Line(["\t{"], "lbrace", 1, 0))
+    L.append(Line(["\t}"], "rbrace", 1, 0))
     L.append(Line(["}"], "func_close", 0, 0))
     L.append(Line([""], "blank"))
     L.append(Line(["int\t", Slot("fname", "after"), "(void)"], "func_sig", 0, 1))
@@ -967,6 +971,10 @@ def maximal_programs():
     L.append(Line([""], "blank"))
     L.append(Line(["void\t", Slot("fname", "last"), "(int *", pp, ")"], "func_sig", 0, 2))
     L.append(Line(["{"], "func_open", 0, 2))
+    # a loop whose braced body is completely empty
+    L.append(Line(["\twhile (*", pp, " > 9)"], "ctrl", 1, 2, kw="while"))
+    L.append(Line(["\t{"], "lbrace", 1, 2))
+    L.append(Line(["\t}"], "rbrace", 1, 2))
     L.append(Line(["\tif (*", pp, ")"], "ctrl", 1, 2, kw="if"))
     L.append(Line(["\t\t*", pp, " = 0;"], "stmt", 2, 2, stmt="assign"))
     L.append(Line(["\telse"], "ctrl", 1, 2, kw="else"))
